@@ -173,6 +173,29 @@ def _gen_for(stream, seed):
         sc = scen.gen_scenario(seed, "shocked", nev=rng.choice([1, 2, 3]), T=rng.choice([16, 24]), max_occ=3)
         sc["stream"] = "early"
         return sc
+    if stream == "tinyind":
+        # an industry nine orders of magnitude smaller than the others (its total demand per step is far below NumPy's
+        # absolute tolerance 1e-8, and not zero), in a run with events
+        sc = scen.gen_scenario(seed, "shocked", tiny=True, scale=1.0, T=rng.choice([10, 16]), max_occ=4)
+        sc["stream"] = "tinyind"
+        return sc
+    if stream == "handover":
+        # one event finishes recovering (linear curve: zero after exactly tau recovery steps) and another one occurs in
+        # the very next step, one step earlier or one step later, possibly while a third one is happening all along
+        sc = scen.gen_scenario(seed, "shocked", types=["recovery", "arbitrary"], nev=rng.choice([2, 2, 3]), T=40, max_occ=4)
+        evs = sc["events"]
+        if len(evs) >= 2:
+            a, b = evs[0], evs[1]
+            a["curve"] = "linear"
+            a["occ"], a["dur"], a["recovery_tau"] = rng.randint(1, 3), rng.randint(1, 3), rng.randint(2, 6)
+            done = a["occ"] + a["dur"] + a["recovery_tau"]
+            b["occ"] = done + rng.choice([0, 1, 1, 1, 2])
+            b["dur"] = rng.randint(3, 10)
+            b["occ"] = min(b["occ"], sc["T"] - b["dur"] - 1)
+            for c_ in evs[2:]:
+                c_["occ"], c_["dur"] = 1, sc["T"] - 3          # happening from start to end
+        sc["stream"] = "handover"
+        return sc
     if stream == "finishing":
         # several rebuilding events at once, the ones registered first small and quickly rebuilt: they finish (and give
         # their block id back) while later ones are still being served
@@ -573,7 +596,7 @@ def one_scenario(pid, sc, res, dr, stats, C, dist, seen_nontrivial, phases, add_
                         vs = fn(sc, base)
                     elif pn in ("c18_variants", "c18_orders"):
                         vs = fn(sc, sc["seed"])
-                    elif pn == "c05_loop":
+                    elif pn in ("c05_loop", "c05_loop_c20"):
                         vs = fn(sc, base, sc["seed"], tr)
                     else:
                         vs = fn(sc, base, sc["seed"])
